@@ -179,6 +179,16 @@ def lay3(ctx, c):
         c.check(ok, "save_symbol:store(%s)" % U(node.value)[:30], "dominated by `%s in symbol_table -> raise`" % key, "store not dominated by the redefinition check",
                 "Program.save_symbol stores %s without first passing the `label in symbol_table` check: a label defined twice is accepted and the later definition wins"
                 % U(node)[:70], repo.loc(fn, node))
+    # EQU symbols take the operand's value, labels the statement index
+    for n in ast.walk(fn.node):
+        if isinstance(n, ast.If) and "is_pseudo_define" in U(n.test) and n.orelse:
+            a = [U(x.value) for x in n.body if isinstance(x, ast.Assign)]
+            b = [U(x.value) for x in n.orelse if isinstance(x, ast.Assign)]
+            neg = isinstance(n.test, ast.UnaryOp)
+            if neg:
+                a, b = b, a
+            c.check(a == ["statement.operand.value"] and b == ["AddressValue(index)"], "save_symbol:values", "EQU -> operand value, label -> AddressValue(index)", "EQU -> %s, label -> %s" % (a, b),
+                    "save_symbol stores %s for an EQU symbol and %s for a label" % (a, b), repo.loc(fn, n))
     # label -> AddressValue(index) for ordinary statements
     txt = U(fn.node)
     if re.search(r"self\.symbol_table\[label\] = AddressValue\(index\)", txt):
